@@ -50,8 +50,10 @@ class C04(Check):
         "writes of that flag (the attribute has no handler inside the checker)",
     ]
     assumptions = [
-        "real-time liveness is measured, not proved: lateness histogram of dispatches and the largest overdue idle entry after a 300 ms settle "
-        "(bound 3 s quick / 10 s thorough, ignored when the process itself was starved of CPU for > 0.5 s); offered load is kept below ~40 % of max_concurrent_checks",
+        "real-time liveness is measured, not proved: lateness histogram of dispatches, and every idle entry that was due when the operations "
+        "stopped must have been taken 1.2 s (2.5 s thorough) later (ignored when the process itself was starved of CPU for > 0.2 s); the bound "
+        "allows for the scheduler's 0.5 s sleep when all slots are taken and the finishing helper's checkable is no longer pending; offered "
+        "load is kept below ~40 % of max_concurrent_checks",
         "at most one harness operation per checkable is in flight at a time (operations on different checkables, helpers and the scheduler run concurrently)",
         "check commands deliver their result from inside the command function (or throw); results from other threads and commands that return without "
         "a result are not generated",
@@ -90,6 +92,27 @@ class C04(Check):
                     break
         return [header or "C 0 ?"] + ctx
 
+    @staticmethod
+    def _sections_before(save, line_no):
+        ctx = []
+        with open(save, errors="replace") as f:
+            for n, l in enumerate(f, 1):
+                if n > line_no:
+                    break
+                if l.startswith("C "):
+                    ctx = []
+                elif l.startswith(("E pick", "E skip", "E dec", "E fin")):
+                    ctx.append(f"{n}: {l.rstrip()}")
+                    ctx = ctx[-8:]
+        return ctx
+
+    def matches_known(self, entry, finding):
+        if entry.get("classifier") == "c04_no_wakeup_when_finished_check_left_pending":
+            # narrow: only the measured late dispatch that directly follows a helper section which found its checkable gone
+            # from the pending set (`fin … | 0 0` resp. `1 0` without having been pending) and therefore did not notify
+            return finding.kind == "spec" and finding.what == "spec:C04:liveness_no_wakeup_after_silent_finish"
+        return False
+
     def _reproduce(self, harness, driver, case, prefix, tries):
         ops = [l for l in case if l.startswith(("C ", "U "))]
         f = self.work("shrink.ops")
@@ -121,7 +144,11 @@ class C04(Check):
             case = self._context(save, int(kv["line"]), kv.get("cid", "0"))
             # arithmetic lines replay deterministically; scenarios are re-run with the same seed (threads: best effort)
             arith = case[0].split()[2:3] == ["arith"]
-            reproduced = self._reproduce(harness, driver, case, "SPECFAIL" if spec else "MISMATCH", 1 if arith else 2)
+            if spec and what == "liveness_no_wakeup_after_silent_finish":
+                # context = the scheduler's and the helpers' sections just before the late dispatch (all checkables)
+                case = case[:1] + self._sections_before(save, int(kv["line"]))
+            tries = 0 if (spec and what.startswith("liveness")) else (1 if arith else 2)
+            reproduced = self._reproduce(harness, driver, case, "SPECFAIL" if spec else "MISMATCH", tries)
             detail = {"driver": l, "origin": origin, "reproduced_on_rerun": reproduced,
                       "note": "lines `<n>: …` are the recorded observations of the failing run (context); replay re-runs the `C` line"}
             if spec:
@@ -165,12 +192,12 @@ class C04(Check):
         res.exhaustive = False
         res.rule = ("corpus/C04/*.ops, then from one PRNG seeded by VERIF_SEED: 40 000 (300 000 thorough) UpdateNextCheck comparisons under the "
                     "virtual clock (now small / medium / around 1.7e9 s, intervals <= 1 s, = 1 s, just above, whole seconds, minutes, arbitrary; "
-                    "offsets 0 .. 2^31; hard and soft-with-result state) and 10 (24) real-time scenarios of 5 s (75 s), 5 (6) at a time, one process "
+                    "offsets 0 .. 2^31; hard and soft-with-result state) and 15 (24) real-time scenarios of 5 s (75 s), 5 (6) at a time, one process "
                     "each: 5-300 hosts plus up to n/4 created at run time, max_concurrent_checks in {1, 2, 4, 16}, check intervals 30 ms - 3 s "
                     "(some above 1 s so that the offset adjustment is live), retry intervals, max_check_attempts 1-3, 10 % with active checks "
                     "disabled, 10 % with a closed check period, commands that sleep (mean chosen for ~40 % load), return OK / alternate / fail / "
                     "throw; 1-4 mutator threads fire pause, resume, bounce (pause+resume+SetNextCheck(now)), SetNextCheck (now, past, near "
-                    "future, one interval), force (+SetNextCheck(now)), deactivate, activate+resume of pool objects, one in four aimed at a "
+                    "future, one interval), force (+SetNextCheck(now)), deactivate, activate+resume of pool objects, OnPausedChanged without a change, one in four aimed at a "
                     "checkable whose command is executing; seeded delays/yields at the schedule points inside the critical sections. "
                     "evaluations = model actions replayed from the implementation's trace + arithmetic comparisons; a scenario counts as "
                     "non-trivial when it contains a forced dispatch and a skipped check or a busy single-flight guard (counted by the Lean driver)")
